@@ -196,7 +196,7 @@ CLAIMED = {
                 "under an overflow trap on headers with extreme begin / length values, performs no sum that leaves the signed "
                 "64-bit range. It "
                 "does not decide absence of undefined behaviour in general, typed access to byte-sliced buffers, or "
-                "resource proportionality; 7 oversized functions are outside the release analysis (frozen list). Every sprintf/strcpy/strcat of the library into a character array of constant size is bounded below the size of the array (format widths by C type, %s by the bound of its argument) (R9.msgbuf).",
+                "resource proportionality; 7 oversized functions are outside the release analysis (frozen list). Every sprintf/strcpy/strcat of the library into a character array of constant size is bounded below the size of the array (format widths by C type, %s by the bound of its argument) (R9.msgbuf). Element counts read from the header are not rounded up or incremented in 32-bit signed arithmetic (R9a.intround).",
         "note": "field identities from clang; LATER table: NC_var.len (dead), NC_var.begin (ncmpio_NC_check_voffs).",
         "design_ref": "DESIGN.md section 3 / C19, rule R9a",
     },
@@ -217,7 +217,7 @@ CLAIMED = {
                 "consecutive elements (every request of six small shapes); ncmpio_add_record_requests splits a multi-record "
                 "request into exactly the records start + r*stride (whole function, bounded), and where the record dimension "
                 "is dropped every per-dimension array handed on is advanced: writes stay inside the requested region. Offset arithmetic of accepted requests "
-                "beyond these slices is not decided.",
+                "beyond these slices is not decided. NC_EIOMISMATCH is raised under an inequality of the buffer's and the request's element counts at every site (R10.iomismatch).",
         "note": "mput/mget examined with nvars >= 1; nprocs > 1 on the collective zero-length branch.",
         "design_ref": "DESIGN.md section 3 / C15",
     },
@@ -271,7 +271,7 @@ CLAIMED = {
                 "record, small / too large, 3 formats) as the format rule does, and every layout NC_begins accepts for lists "
                 "of up to 3 variables with lengths up to 2^63-8 (unbounded integers in the analyser) has non-negative, "
                 "representable, ordered, non-overlapping begins. Data placement at run time is not decided; the intra-node "
-                "aggregation layer is outside the narrowing rule.",
+                "aggregation layer is outside the narrowing rule. A 64-bit file offset is refused for exceeding 2^31-1 only where the function goes on to put that value into 32 bits (R12.offlimit).",
         "note": "LP64 build; guard recognition is syntactic-structural (dominating comparison on the same expression text). "
                 "Found and fixed: F-C18-1 (63-bit overflow of the running offset in NC_begins).",
         "design_ref": "DESIGN.md section 3 / C18, rules R10, R12",
@@ -350,7 +350,7 @@ CLAIMED = {
                 "file offset for every fill level of a 40-byte window (bounded); vsize from the file is recomputed "
                 "from the dimensions on every successful open path; begin_rec / begin_var are taken from the file's "
                 "own offsets (gaps honoured). Equality of all inquiry results and data with the encoded content is "
-                "NOT decided. No field of the header object that the decoder derives is read (by it or the functions it hands the object to) before the write that derives it (R4.decodeorder). The decode of the record count is required to recognise the specification's STREAMING word (R7.streaming; it does not: listed finding F-C04-1).",
+                "NOT decided. No field of the header object that the decoder derives is read (by it or the functions it hands the object to) before the write that derives it (R4.decodeorder). The decode of the record count is required to recognise the specification's STREAMING word (R7.streaming; it does not: listed finding F-C04-1). The reader's record size is evaluated for lists of up to 3 variables against the format rule: packed for a single record variable, the sum of the padded lengths otherwise (R8.recsize).",
         "note": "The hint nc_header_read_chunk_size is inert in this snapshot (parsed into a local, never stored), so chunk "
                 "sizes other than the default are unreachable through the API; the rules are independent of the chunk size.",
         "design_ref": "DESIGN.md section 3 / C04, rules R7, R9a, R8.fetch",
